@@ -1229,14 +1229,32 @@ def install_ckpt(mon):
         d, w = sampler_digest(sampler)
         cands = list(reversed(recs))  # newest first
         allowed = mon.job.get("ckpt_allow_previous", False)
+        is_ins = isinstance(sampler, ImportanceNestedSampler)
+        saved = saved_weight_hashes()
+
+        def weight_diff(rec):
+            wdf = D.diff(rec["weights"], w)
+            if wdf and not is_ins:
+                # The weights file is separate from the checkpoint and is
+                # rewritten by every training: the restored flow must be the
+                # one of the checkpoint or of a training saved since (or its
+                # .old predecessor).  Before the first training nothing was
+                # saved and the (unused) initial weights are not observable.
+                ok_set = set(saved[-2:])
+                trained = rec["digest"].get(
+                    "_flow_proposal.training_count", "0") != "0"
+                wdf = [(k, a, b) for k, a, b in wdf
+                       if trained and b not in ok_set]
+            return wdf
+
         best = None
         for idx, rec in enumerate(cands):
             df = D.diff(rec["digest"], d, ignore=IGNORE_AT_RESUME)
-            wdf = D.diff(rec["weights"], w)
-            if best is None:
+            wdf = weight_diff(rec)
+            if best is None or len(df) + len(wdf) < len(best[1]) + len(
+                    best[2]):
                 best = (rec, df, wdf)
             if not df and not wdf:
-                best = (rec, df, wdf)
                 info["resumed_serial"] = rec["serial"]
                 info["resumed_is_previous"] = idx > 0
                 if idx > 0 and not allowed:
@@ -1253,20 +1271,6 @@ def install_ckpt(mon):
             V(f"resume:state-differs@{where}:" + ",".join(fields[:4]),
               "; ".join(f"{k}: {a} -> {b}" for k, a, b in df[:6])
               + f" ({len(df)} fields)")
-        if wdf and not isinstance(sampler, ImportanceNestedSampler):
-            # The weights file is separate from the checkpoint and is
-            # rewritten by every training: the restored flow must be the one
-            # of the checkpoint or of a training saved since (or its .old
-            # predecessor).  Before the first training nothing was saved and
-            # the (unused) initial weights are not observable.
-            saved = saved_weight_hashes()
-            ok_set = set(saved[-2:])
-            trained = rec["digest"].get(
-                "_flow_proposal.training_count", "0") != "0"
-            wdf = [(k, a, b) for k, a, b in wdf
-                   if trained and b not in ok_set]
-            if wdf:
-                info["weights_saved"] = saved[-3:]
         if wdf:
             V(f"resume:flow-weights-differ@{where}",
               "; ".join(f"{k}: {a} -> {b}" for k, a, b in wdf[:4]))
